@@ -43,7 +43,7 @@ LangOf(c) == [keys |-> {[seq |-> c.keys[i][1], key |-> c.keys[i][2], mod |-> c.k
 NormEvs(evs) == LET k == SelectSeq(evs, LAMBDA x : x[1] # "clip")
                 IN [i \in 1..Len(k) |-> IF k[i][1] = "mouse" THEN <<"mouse">> ELSE k[i]]
 Predicted(e) ==
-    IF "keys" \notin DOMAIN cfg THEN {}
+    IF "keys" \notin DOMAIN cfg \/ "nomodel" \in DOMAIN e THEN {}
     ELSE LET d == Decode(LangOf(cfg), e.bytes) IN
          IF d.amb \/ d.hi THEN {}
          ELSE (IF NormEvs(Events(d)) = NormEvs(e.evs) THEN {}
